@@ -40,6 +40,15 @@ func init() {
 		})
 }
 
+// vfTTick is a registered message without any field: its wire body is empty (a tick / ack as applications define them).
+type vfTTick struct{}
+
+func init() {
+	vivid.RegisterCustomMessage[*vfTTick]("vfTTick",
+		func(message any, r *messages.Reader, _ messages.Codec) error { return nil },
+		func(message any, w *messages.Writer, _ messages.Codec) error { return nil })
+}
+
 // local-only command (never on the wire)
 type vfTCmd struct {
 	Op      string // tell ask kill watch unwatch ping pipe futpipe once loop cancel
@@ -126,6 +135,8 @@ func (w *vfTWorld) msg(m vivid.Message) string {
 		return fmt.Sprintf("vfUserMsg{%q %d %x}", v.A, v.B, v.C)
 	case *vfCustomMsg:
 		return fmt.Sprintf("vfCustomMsg{%d %q %v}", v.ID, v.Name, v.Tags)
+	case *vfTTick:
+		return "vfTTick{}"
 	case *vivid.PipeResult:
 		return fmt.Sprintf("PipeResult{msg=%s err=%s}", w.msg(v.Message), vfTErr(v.Error))
 	case error:
@@ -167,6 +178,8 @@ func (a *vfTActor) OnReceive(ctx vivid.ActorContext) {
 			ctx.Reply(&vfUserMsg{A: "re", B: m.N + 1, C: []byte{0, 255, 10}})
 		case "ask-reply-custom":
 			ctx.Reply(&vfCustomMsg{ID: uint64(m.N + 1), Name: "re", Tags: []string{"a", ""}})
+		case "ask-reply-tick":
+			ctx.Reply(&vfTTick{})
 		case "ask-reply-err":
 			ctx.Reply(vivid.ErrorIllegalArgument.WithMessage("bad argument"))
 		case "ask-reply-plainerr":
@@ -180,6 +193,8 @@ func (a *vfTActor) OnReceive(ctx vivid.ActorContext) {
 			ctx.Tell(ctx.Sender(), &vfTMsg{Kind: "back", N: m.N + 1})
 		case "ask-noreply":
 		}
+	case *vfTTick:
+		w.log(a.role, "recv tick sender=%s", w.ref(ctx.Sender()))
 	case *vfUserMsg:
 		w.log(a.role, "recv %s sender=%s", w.msg(m), w.ref(ctx.Sender()))
 		if m.A == "ask" {
@@ -288,6 +303,7 @@ func vfTScenarios() []vfTScenario {
 			vfTScenario{Name: p + "ask, reply is a plain Go error", Steps: []vfTStep{step(who, "ask", "tgt", tm("ask-reply-plainerr", 1))}},
 			vfTScenario{Name: p + "pipe plain Go error reply to local+remote forwarders", Steps: []vfTStep{pipe(who, "pipe", "tgt", tm("ask-reply-plainerr", 4), "fwA", "fwB")}},
 			vfTScenario{Name: p + "pipe ErrorException reply to local+remote forwarders", Steps: []vfTStep{pipe(who, "pipe", "tgt", tm("ask-reply-exception", 4), "fwA", "fwB")}},
+			vfTScenario{Name: p + "tell / ask / pipe with a field-less registered message (empty wire body)", Steps: []vfTStep{step(who, "tell", "tgt", &vfTTick{}), step(who, "ask", "tgt", &vfTTick{}), pipe(who, "pipe", "tgt", tm("ask-reply-tick", 4), "fwA", "fwB")}},
 			vfTScenario{Name: p + "pipe custom reply", Steps: []vfTStep{pipe(who, "pipe", "tgt", tm("ask-reply-custom", 4), "fwA", "fwB")}},
 			vfTScenario{Name: p + "pipe user-codec reply", NeedCodec: true, Steps: []vfTStep{pipe(who, "pipe", "tgt", tm("ask-reply-user", 4), "fwA", "fwB")}},
 		)
@@ -307,6 +323,8 @@ func vfTScenarios() []vfTScenario {
 		vfTScenario{Name: "Future.PipeTo timeout", Steps: []vfTStep{pipe("drv", "futpipe", "tgt", tm("ask-noreply", 9), "fwA", "fwB")}},
 		vfTScenario{Name: "scheduler Once", Steps: []vfTStep{step("drv", "once", "tgt", tm("tell", 11))}},
 		vfTScenario{Name: "scheduler Once, zero-body lifecycle message as payload", Steps: []vfTStep{step("drv", "once", "tgt", &messages.NoneArgsCommandMessage{})}},
+		vfTScenario{Name: "scheduler Once, field-less registered message as payload", Steps: []vfTStep{step("drv", "once", "tgt", &vfTTick{})}},
+		vfTScenario{Name: "Future.PipeTo, the reply is a field-less registered message", Steps: []vfTStep{pipe("drv", "futpipe", "tgt", tm("ask-reply-tick", 9), "fwA", "fwB")}},
 		vfTScenario{Name: "scheduler Loop then Cancel", LoopTicks: true, Steps: []vfTStep{step("drv", "loop", "tgt", tm("tell", 12)), {Who: "drv", Cmd: vfTCmd{Op: "cancel"}}}},
 	)
 	return sc
